@@ -65,4 +65,30 @@ Proof.
   cbn [run_history run_step run_session run_sop snd]. rewrite E. cbn [snd].
   pose proof (bottom_up_restores_validity gen wck ord RC OC P sf HS HWF HWO HRefl HReflO always fuel h edits ch AV Hch) as X. fold wh w1 in X. rewrite E in X. apply X.
 Qed.
+(* (3) a session that requires known tasks in a store where everything is consistent changes nothing the premise looks at *)
+Theorem requires_of_known_tasks_keep_AllValid fuel h ops :
+  let wh := snd (run_history RC OC P always fuel init_world h) in
+  AllValid RC OC wh -> roots_below ord fuel ops -> (forall t, In t (roots ops) -> get_task_output wh t <> None) ->
+  AllValid RC OC (snd (run_history RC OC P always fuel init_world (h ++ [HSession ops]))).
+Proof.
+  intros wh AV RB HX. rewrite run_history_app. fold wh.
+  destruct (run_history_HBs gen wck ord RC OC P sf HS HWF HWO always fuel h init_world) as [Jh [_ [Qh _]]]; [split; [apply L_init|intros x d X; discriminate]|apply K_init|apply Q_init|apply HBs_init|].
+  fold wh in Jh, Qh.
+  set (X := map fst (outs wh)).
+  assert (VX : ValidX RC OC X (new_session wh)).
+  { intros x Ix. apply alookup_in in Ix. change (get_task_output wh x <> None) in Ix. split.
+    - destruct (get_task_output wh x) as [o|] eqn:E0; [exists o; exact E0|contradiction Ix; reflexivity].
+    - intros d dp R. change (row wh x d = Some dp) in R. pose proof (AV x Ix d dp R) as G.
+      destruct dp as [|y c st|r0 c st|r0 c st]; cbn [UpToDate.DepGood DepOKX] in *; [exact G| |exact G|exact G].
+      destruct G as [oy [Oy Cy]]. split; [apply alookup_in; change (get_task_output wh y <> None); rewrite Oy; discriminate|exists oy; split; assumption]. }
+  destruct (idem_session gen ord RC OC P always X fuel ops (new_session wh) VX (proj1 (proj1 Jh)) ltac:(apply (Q_same gen ord wh); [reflexivity|exact Qh]) RB
+              ltac:(intros t It; apply alookup_in; apply HX; exact It)) as [Qt _].
+  cbn [run_history run_step]. destruct (run_session RC OC P always fuel (new_session wh) ops) as [rs v]. cbn [snd] in *.
+  intros x Ox d dp R. unfold get_task_output in Ox. rewrite (qt_outs _ _ Qt) in Ox.
+  rewrite (proj2 (qt_rows _ _ Qt x) d) in R. pose proof (AV x Ox d dp R) as G.
+  destruct dp as [|y c st|r0 c st|r0 c st]; cbn [UpToDate.DepGood] in *; [exact G| | |].
+  - unfold get_task_output. rewrite (qt_outs _ _ Qt). exact G.
+  - rewrite (qt_content _ _ Qt), (qt_env _ _ Qt). exact G.
+  - rewrite (qt_content _ _ Qt), (qt_env _ _ Qt). exact G.
+Qed.
 End GH.
